@@ -784,6 +784,7 @@ def apply (s : State) : Op → State
   | .add c => match prepare c with | some c' => add s c' | none => s
   | .addInvalid => s
   | .remove fp => remove s fp
+  | .removeInvalid => s
   | .replace old c => match prepare c with | some c' => replace s old c' | none => s
   | .replaceInvalid _ => s
 
@@ -796,6 +797,7 @@ theorem agree_apply {s : State} (h : Agree s) (op : Op) : Agree (apply s op) := 
     | some c' => exact agree_add h c' (prepare_good hp).2.2.2
   | addInvalid => exact h
   | remove fp => exact agree_remove h fp
+  | removeInvalid => exact h
   | replace old c =>
     simp only [apply]
     cases hp : prepare c with
@@ -811,6 +813,7 @@ theorem step_eq_apply {s : State} (h : Agree s) (op : Op) : (step s op).1 = appl
   | replace old c =>
     cases hp : prepare c <;> simp [step, h.a.alive, apply, hp] at hal ⊢ <;> simp [hal]
   | addInvalid => simp [step, h.a.alive, apply]
+  | removeInvalid => simp [step, h.a.alive, apply]
   | remove fp => simp [step, h.a.alive, apply] at hal ⊢; simp [hal]
   | replaceInvalid o => simp [step, h.a.alive, apply]
 
@@ -935,6 +938,7 @@ theorem get_certs_apply_none (s : State) (op : Op) (fp : Fp) (h : KMap.get? s.ce
       simp only []; rw [get_certs_add s c' fp this]; exact h
   | addInvalid => exact h
   | remove o => simp only [apply, get_certs_remove]; split <;> simp [h]
+  | removeInvalid => exact h
   | replaceInvalid o => exact h
   | replace old c =>
     simp only [apply]
